@@ -34,13 +34,15 @@ package quorum
 //@ -- Committed index. The acknowledgement source is an interface; its contract introduces the abstract
 //@ -- acknowledgement function ack(l, id) (0 when not found).
 
-//@ ufun ackFound(tag int, val int, id uint64) bool
-//@ ufun ackIdx(tag int, val int, id uint64) uint64
-//@ spec ack(l AckedIndexer, id uint64) uint64 := ackFound(ifacetag(l), ifaceval(l), id) ? ackIdx(ifacetag(l), ifaceval(l), id) : 0
+//@ -- The abstract functions take the heap versions an implementation may read as (hidden) arguments, so statements made
+//@ -- about them in different states are independent.
+//@ ufun ackFound(l AckedIndexer, id uint64) bool reads M$map[uint64]*tracker.Progress, F$tracker.Progress.Match, M$map[uint64]uint64, M$map[uint64]quorum.Index
+//@ ufun ackIdx(l AckedIndexer, id uint64) uint64 reads M$map[uint64]*tracker.Progress, F$tracker.Progress.Match, M$map[uint64]uint64, M$map[uint64]quorum.Index
+//@ spec ack(l AckedIndexer, id uint64) uint64 := ackFound(l, id) ? ackIdx(l, id) : 0
 
 //@ func quorum.AckedIndexer.AckedIndex
 //@   pure
-//@   ensures found == ackFound(ifacetag(self), ifaceval(self), voterID) && idx == ackIdx(ifacetag(self), ifaceval(self), voterID)
+//@   ensures found == ackFound(self, voterID) && idx == ackIdx(self, voterID)
 
 //@ -- The property's sentence: the result is the largest index acknowledged by a strict majority (missing voters count 0):
 //@ -- at least q = n/2+1 voters acknowledge >= result (vacuous for result 0), and fewer than q acknowledge > result.
@@ -54,18 +56,20 @@ package quorum
 //@   ensures #empty len(c) == 0 ==> result == 18446744073709551615
 //@   ensures #majority [C12 C06 C11] len(c) > 0 ==> majCommittedSpec(c, l, result)
 //@   ensures #is-an-ack [C12 C11 C14] len(c) > 0 ==> (result == 0 || (exists id uint64 :: has(c, id) && ack(l, id) == result))
-//@   loop 1 invariant #fill 0 - 1 <= i && i == len(c) - 1 - cntsofar(id :: ackFound(ifacetag(l), ifaceval(l), id)) && len(srt) == len(c) && n == len(c)
+//@   loop 1 invariant #fill 0 - 1 <= i && i == len(c) - 1 - cntsofar(id :: ackFound(l, id)) && len(srt) == len(c) && n == len(c)
 //@   loop 1 invariant #zeros forall p int :: 0 <= p && p <= i ==> srt[p] == 0
 //@   loop 1 invariant #ge forall v int :: v > 0 ==> acntge(srt, v) == cntsofar(id :: ack(l, id) >= v)
 //@   loop 1 invariant #gt forall v int :: v >= 0 ==> acntgt(srt, v) == cntsofar(id :: ack(l, id) > v)
 //@   loop 1 invariant #acks forall p int :: 0 <= p && p < len(srt) ==> (srt[p] == 0 || (exists id uint64 :: has(c, id) && ack(l, id) == srt[p]))
 
-//@ spec jointCommittedSpec(c JointConfig, l AckedIndexer, r int) bool :=
+//@ -- joint: r is acknowledged by a majority of every non-empty half, and for some non-empty half no larger index is
+//@ -- (i.e. r is the minimum of the halves' majority indexes; an empty half imposes no constraint; both empty: +infinity)
+//@ pred jointCommittedSpec(c JointConfig, l AckedIndexer, r int) :=
 //@     (len(c[0]) == 0 && len(c[1]) == 0) ? r == 18446744073709551615
-//@   : len(c[1]) == 0 ? majCommittedSpec(c[0], l, r)
-//@   : len(c[0]) == 0 ? majCommittedSpec(c[1], l, r)
-//@   : (exists r0 int, r1 int :: majCommittedSpec(c[0], l, r0) && majCommittedSpec(c[1], l, r1) && r == min(r0, r1))
+//@   : ((len(c[0]) > 0 ==> r == 0 || geCnt(c[0], l, r) >= len(c[0]) / 2 + 1) && (len(c[1]) > 0 ==> r == 0 || geCnt(c[1], l, r) >= len(c[1]) / 2 + 1)
+//@      && ((len(c[0]) > 0 && gtCnt(c[0], l, r) < len(c[0]) / 2 + 1) || (len(c[1]) > 0 && gtCnt(c[1], l, r) < len(c[1]) / 2 + 1)))
 
 //@ func quorum.JointConfig.CommittedIndex [C12 C06 C10]
 //@   requires !isnil(l)
+//@   after quorum.MajorityConfig.CommittedIndex #2 assume cnt_mono(c[1], id :: ack(l, id) >= result, id :: ack(l, id) >= idx0) && cnt_mono(c[0], id :: ack(l, id) >= idx0, id :: ack(l, id) >= result)
 //@   ensures #joint-min [C12 C06 C10] jointCommittedSpec(c, l, result)
